@@ -35,9 +35,9 @@ Fixpoint rt_sim (fuel : nat) (m : machine) (a b : Z) (ab : list Z) : bool :=
   end.
 
 Definition check_redterm (m : machine) (nstates T NS : Z) (F : nat) : bool :=
-  forallb (fun a => forallb (fun b => forallb (fun A =>
+  forallb (fun b => forallb (fun A =>
       let t := m_goto m b A in
-      if okst nstates t then rt_sim F m a b [t] else true) (zrange0 NS)) (zrange0 nstates)) (zrange0 T).
+      if okst nstates t then forallb (fun a => rt_sim F m a b [t]) (zrange0 T) else true) (zrange0 NS)) (zrange0 nstates).
 
 (* the number of steps the longest anchored phase takes (for the evidence; 0 when some phase needs more than F) *)
 Fixpoint rt_steps (fuel : nat) (m : machine) (a b : Z) (ab : list Z) : option nat :=
@@ -58,10 +58,11 @@ Fixpoint rt_steps (fuel : nat) (m : machine) (a b : Z) (ab : list Z) : option na
   end.
 
 Definition redterm_longest (m : machine) (nstates T NS : Z) (F : nat) : nat :=
-  fold_left (fun acc a => fold_left (fun acc b => fold_left (fun acc A =>
+  fold_left (fun acc b => fold_left (fun acc A =>
       let t := m_goto m b A in
-      if okst nstates t then match rt_steps F m a b [t] with Some k => Nat.max acc k | None => acc end else acc)
-    (zrange0 NS) acc) (zrange0 nstates) acc) (zrange0 T) O.
+      if okst nstates t
+      then fold_left (fun acc a => match rt_steps F m a b [t] with Some k => Nat.max acc k | None => acc end) (zrange0 T) acc
+      else acc) (zrange0 NS) acc) (zrange0 nstates) O.
 
 (* shifts and gotos stay below nstates, reduced rules have their left-hand side below NS *)
 Definition check_range (m : machine) (nstates T NS : Z) : bool :=
@@ -73,3 +74,7 @@ Definition check_range (m : machine) (nstates T NS : Z) : bool :=
       | _ => true
       end) (zrange0 T)) (zrange0 nstates) &&
   forallb (fun b => forallb (fun A => let t := m_goto m b A in (t =? -1) || okst nstates t) (zrange0 NS)) (zrange0 nstates).
+
+(* end-of-input is only shifted into the end state (states of the tables) *)
+Definition check_eoi (m : machine) (nstates e : Z) : bool :=
+  forallb (fun s => match m_act m s 0 [] with Shift q => q =? e | _ => true end) (zrange0 nstates).
